@@ -190,7 +190,7 @@ func GenDoc(x *mc.Exec, withErrors bool) *DocCase {
 	case 2:
 		doc.Meta = j.Meta{"s": "str", "n": 1.5, "t": true, "big": uint64(math.MaxUint64), "maxint": int64(math.MaxInt64), "huge": 1e300, "neg": -1e19, "whole": 3.0}
 	case 3:
-		doc.Meta = j.Meta{"nested": map[string]any{"a": []any{1.0, "two", nil}, "z": nil}, "esc<>&\"\\ ": "v\x00"}
+		doc.Meta = j.Meta{"nested": map[string]any{"a": []any{1.0, "two", nil}, "z": nil}, "esc<>&\"\\ ": "v\x00", "nothing": nil}
 	}
 	for i := 0; i < nerr; i++ {
 		e := j.NewError()
@@ -213,7 +213,17 @@ func GenDoc(x *mc.Exec, withErrors bool) *DocCase {
 	for _, t := range c.Schema.Types {
 		switch sel {
 		case 0:
-			fields[t.Name] = FieldNames(t)
+			// every field, in an order that is neither sorted nor reversed (odd positions, then the even ones
+			// backwards), the way a hand-written URL lists them
+			fs := FieldNames(t)
+			var sc []string
+			for i := 1; i < len(fs); i += 2 {
+				sc = append(sc, fs[i])
+			}
+			for i := (len(fs) - 1) &^ 1; i >= 0; i -= 2 {
+				sc = append(sc, fs[i])
+			}
+			fields[t.Name] = sc
 		case 1:
 			fs := FieldNames(t)
 			fields[t.Name] = fs[len(fs)-1:]
